@@ -16,6 +16,7 @@ package document
 //@ ensures len(b.Elements) == old(len(b.Elements)) + 1
 //@ ensures b.Elements[old(len(b.Elements))] == element
 //@ ensures forall j int :: 0 <= j && j < old(len(b.Elements)) ==> b.Elements[j] == old(b.Elements[j])
+//@ ensures old(elemsOK(b.Elements)) && ref(element) != nil && (forall j int :: 0 <= j && j < old(len(b.Elements)) ==> b.Elements[j] == old(b.Elements[j])) && len(b.Elements) == old(len(b.Elements)) + 1 && b.Elements[old(len(b.Elements))] == element ==> elemsOK(b.Elements)
 //@ ensures unchangedExcept("Body.Elements", "cell:any")
 
 //@ func (*Document).AddParagraph
@@ -26,6 +27,7 @@ package document
 //@ ensures typeIs(d.Body.Elements[old(len(d.Body.Elements))], "*Paragraph") && d.Body.Elements[old(len(d.Body.Elements))].(*Paragraph) == result
 //@ ensures forall j int :: 0 <= j && j < old(len(d.Body.Elements)) ==> d.Body.Elements[j] == old(d.Body.Elements[j])
 //@ ensures len(result.Runs) == 1 && result.Runs[0].Text.Content == text && result.Properties == nil
+//@ ensures old(elemsOK(d.Body.Elements)) && (forall j int :: 0 <= j && j < old(len(d.Body.Elements)) ==> d.Body.Elements[j] == old(d.Body.Elements[j])) && len(d.Body.Elements) == old(len(d.Body.Elements)) + 1 && result != nil && d.Body.Elements[old(len(d.Body.Elements))].(*Paragraph) == result ==> elemsOK(d.Body.Elements)
 //@ ensures unchangedExcept("Body.Elements", "cell:any")
 
 //@ func (*Document).AddPageBreak
@@ -34,6 +36,7 @@ package document
 //@ ensures len(d.Body.Elements) == old(len(d.Body.Elements)) + 1
 //@ ensures typeIs(d.Body.Elements[old(len(d.Body.Elements))], "*Paragraph") && fresh(d.Body.Elements[old(len(d.Body.Elements))].(*Paragraph))
 //@ ensures forall j int :: 0 <= j && j < old(len(d.Body.Elements)) ==> d.Body.Elements[j] == old(d.Body.Elements[j])
+//@ ensures old(elemsOK(d.Body.Elements)) && (forall j int :: 0 <= j && j < old(len(d.Body.Elements)) ==> d.Body.Elements[j] == old(d.Body.Elements[j])) && len(d.Body.Elements) == old(len(d.Body.Elements)) + 1 && d.Body.Elements[old(len(d.Body.Elements))].(*Paragraph) != nil ==> elemsOK(d.Body.Elements)
 //@ ensures unchangedExcept("Body.Elements", "cell:any")
 
 //@ func (*Document).RemoveElementAt
